@@ -34,7 +34,9 @@ package extractor
 //@   property C10
 //@   sweep idx slice div assert extnil
 //@   opaque
-//@   modifies models.URL::*!Hops!Redirects
+//@   modifies models.URL::*!Hops!Redirects, xmlLeft
+//@   loop for invariant [left] xml.xmlRemaining() >= 0
+//@   loop for variant [token-loop-ends] xml.xmlRemaining() // C10: nothing a remote server can send makes the crawler spin forever (every round of the token loop follows a RawToken call that consumed input; an error or EOF leaves the loop)
 //@ func IsHTML
 //@   property C10
 //@   sweep idx slice div assert extnil
